@@ -1,26 +1,202 @@
 /-
-C06 — calls obey the System V x86-64 calling convention.  (work in progress: first theorem only)
+C06 — calls obey the System V x86-64 calling convention.
+
+Property theorems only (helper lemmas: Lemmas/CallConvLemmas.lean, Lemmas/PsABILemmas.lean).
+Model: Model/CallConv.lean (codegen.c push_args / push_args2 / ND_FUNCALL / assign_lvar_offsets / emit_text /
+copy_struct_reg / copy_struct_mem / copy_ret_buffer, include/stdarg.h); specification: Spec/PsABI.lean (psABI 3.2.3,
+3.5.7); known-finding regions: Spec/CallRegions.lean.  Every theorem is for **all** signatures: any number and order of
+parameters, any member trees.
+
+`sizesOk s` (decidable) is the well-formedness of the types of `s`: an aggregate of at most 16 bytes is not empty and
+an eightbyte moved with movss/movsd has 4 or 8 bytes (fails only for the GNU empty struct and for packed structs: known
+finding C06-packed-unaligned-param, where cc1 aborts), integer-class scalars have 1..8 bytes, no array is passed by value.
+`supported s` (decidable) = outside the regions of the five known findings of known_findings.json.
 -/
 import ChibiVerif.Model.CallConv
 import ChibiVerif.Spec.PsABI
 import ChibiVerif.Spec.CallRegions
+import ChibiVerif.Lemmas.CallConvLemmas
+import ChibiVerif.Lemmas.PsABILemmas
 
 namespace ChibiVerif.Props.C06
 open ChibiVerif.CallConv
-open ChibiVerif.Gen.Templates (templates)
+open ChibiVerif.Spec
+open ChibiVerif.Spec.CallRegions (supported)
+open ChibiVerif.Gen.Templates (templates GP_MAX FP_MAX)
+
+/-! ## chibicc ↔ chibicc -/
+
+/-- full statement: for every signature, neither side reaches an abort site of cc1 and the callee reads every named
+    parameter from where the caller put the argument.  False as stated: see Findings/C06.lean (packed / empty structs). -/
+def C06_self_Statement : Prop :=
+  ∀ s : Sig, ∃ a, callerAssign s = .ok a ∧ calleeAssign s = .ok (a.take s.nNamed)
+
+/-- **C06 (chibicc-compiled caller and callee agree).**  For every well-formed signature the three loops of the caller
+    (classification in `push_args`, the two pushing passes, the pop phase of `ND_FUNCALL`) and the two loops of the callee
+    (`assign_lvar_offsets`, the register stores of the prologue) put and expect every argument in the same register
+    pieces or at the same stack offset, and no abort site (`assert(depth == 0)`, `unreachable()`, `argreg64[6]`) is reached.
+    Missing for the full statement: packed structs with unaligned members and the GNU empty struct (known finding). -/
+theorem C06_self_partial (s : Sig) (h : sizesOk s = true) :
+    ∃ a, callerAssign s = .ok a ∧ calleeAssign s = .ok (a.take s.nNamed) := by
+  simp only [sizesOk, Bool.and_eq_true] at h
+  refine ⟨_, callerAssign_eq s h.1, ?_⟩
+  rw [calleeAssign_eq s h.1, Sig.named, refLoop_take]
+
+example : sizesOk { ret := some (.agg false 24 8 (.cons 0 (.int 8 false false) (.cons 8 (.int 8 false false) (.cons 16 .dbl .nil)))),
+                    params := [.int 4 false false, .agg false 16 8 (.cons 0 (.int 8 false false) (.cons 8 .dbl .nil)), .ldbl,
+                               .dbl, .flt, .agg false 12 4 (.cons 0 (.arr .flt 3) .nil)],
+                    nNamed := 4, variadic := true } = true := by decide
+
+/-! ## chibicc ↔ any ABI-conforming compiler -/
+
+/-- full statement: for every well-formed signature both sides of chibicc place arguments, al and return values exactly as
+    psABI 3.2.3 does.  False: see the five witnesses in Findings/C06.lean. -/
+def C06_abi_Statement : Prop :=
+  ∀ s : Sig, sizesOk s = true →
+    callerAssign s = .ok (PsABI.assign s) ∧ calleeAssign s = .ok ((PsABI.assign s).take s.nNamed) ∧
+    callerAl s = PsABI.al s ∧ retCaller s.ret = .ok (PsABI.ret s.ret) ∧ retCallee s.ret = .ok (PsABI.ret s.ret)
+
+/-- **C06 (psABI conformance outside the known findings).**  For every well-formed signature outside the regions
+    `C06-struct-with-ldouble`, `C06-packed-unaligned-param`, `C06-padding-eightbyte`, `C06-ldouble-stack-align`:
+    the caller puts every argument where psABI 3.2.3 puts it (registers rdi rsi rdx rcx r8 r9 / xmm0-7 per eightbyte,
+    all-or-nothing for aggregates, stack slots left to right from (%rsp)), the callee takes every named parameter from
+    there, `mov $N, %rax` gives the number of vector registers used, and return values travel in rax/rdx/xmm0/xmm1/st0 or
+    through the hidden pointer with rax = that pointer on return, on both sides.
+    Proof: structural induction on member trees (`hasFlonum_leaves`: has_flonum is a statement about the flat list of
+    scalars), the merge loop invariant (`foldClasses_getD`), and induction on the argument list with the (gp, fp, stack)
+    counters as invariant (`caller_loop`, `callee_loop`, `abi_loop`). -/
+theorem C06_abi_partial (s : Sig) (hs : sizesOk s = true) (h : supported s = true) :
+    callerAssign s = .ok (PsABI.assign s) ∧ calleeAssign s = .ok ((PsABI.assign s).take s.nNamed) ∧
+    callerAl s = PsABI.al s ∧ retCaller s.ret = .ok (PsABI.ret s.ret) ∧ retCallee s.ret = .ok (PsABI.ret s.ret) := by
+  simp only [sizesOk, Bool.and_eq_true] at hs
+  simp only [supported, Bool.and_eq_true, Bool.not_eq_true'] at h
+  obtain ⟨⟨hty, hret⟩, hpad⟩ := h
+  have hmem := retInMemory_eq s.ret hret
+  have hb : min (b2n (retLarge s.ret)) GP_MAX = b2n (retLarge s.ret) := by
+    simp only [b2n, GP_MAX_eq]; split <;> omega
+  have h0 : min 0 FP_MAX = 0 := by simp
+  have hst : ((if PsABI.retInMemory s.ret then 1 else 0 : Nat), (0 : Nat), (0 : Nat))
+      = (min (b2n (retLarge s.ret)) GP_MAX, min 0 FP_MAX, 0) := by
+    rw [hb, h0, hmem]; rfl
+  have hloop := abi_loop s.params (b2n (retLarge s.ret)) 0 0 hs.1 hty (by
+    simp only [CallRegions.stackAlignPad] at hpad; rw [hst] at hpad; exact hpad)
+  have hassign : PsABI.assign s = (refLoop (b2n (retLarge s.ret), 0, 0) s.params).2 := by
+    simp only [PsABI.assign]; rw [hst, hloop]
+  have hrets := ret_abi s.ret hret (by
+    intro t ht
+    have := hs.2
+    rw [ht] at this
+    exact this)
+  refine ⟨?_, ?_, ?_, hrets.1, hrets.2⟩
+  · rw [hassign]; exact callerAssign_eq s hs.1
+  · rw [hassign, calleeAssign_eq s hs.1, Sig.named, refLoop_take]
+  · have h4 := (caller_loop s.params (b2n (retLarge s.ret)) 0 0 0 hs.1).2.2.2
+    rw [hb, h0] at h4
+    simp only [callerAl, popPhase, PsABI.al]
+    rw [hst, hloop, h4]
+
+example :
+    let s : Sig := { ret := some (.agg false 24 8 (.cons 0 (.int 8 false false) (.cons 8 (.int 8 false false) (.cons 16 .dbl .nil)))),
+                     params := [.int 4 false false, .int 8 false false, .int 8 false false, .int 8 false false,
+                                .agg false 16 8 (.cons 0 (.int 8 false false) (.cons 8 .dbl .nil)),
+                                .agg false 16 8 (.cons 0 (.int 8 false false) (.cons 8 (.int 8 false false) .nil)),
+                                .dbl, .flt, .agg false 12 4 (.cons 0 (.arr .flt 3) .nil), .int 1 true true],
+                     nNamed := 10, variadic := false }
+    sizesOk s = true ∧ supported s = true := by decide
+
+/-! ## stack alignment and clean-up -/
+
+/-- **C06 (16-byte alignment at every call).**  A function entered with rsp ≡ 8 (mod 16) whose frame size is a multiple
+    of 16 executes every `call *%r10` with rsp ≡ 0 (mod 16), whatever the signature and however many slots (`depth`)
+    enclosing expressions have pushed: the parity rule on `depth + stack`, and the fact that at the call exactly the
+    padding and the first-pass pushes are on the stack (`depthAtCall_eq`).  (`depth` is the true number of pushed slots:
+    property C20; `alloca` keeps rsp a multiple of 16 by rounding its size.) -/
+theorem C06_align (entry : Int) (stackSize depth : Nat) (s : Sig) (hs : sizesOk s = true)
+    (he : entry % 16 = 8) (hf : stackSize % 16 = 0) :
+    rspAtCall entry stackSize depth s % 16 = 0 := by
+  simp only [sizesOk, Bool.and_eq_true] at hs
+  have h1 := depthAtCall_eq depth s hs.1
+  have h2 := stackArgs_parity depth s
+  simp only [rspAtCall, h1]
+  omega
+
+example : sizesOk { ret := none, params := [.ldbl, .int 4 false false], nNamed := 2, variadic := false } = true := by decide
+
+/-- **C06 (the caller removes exactly what it pushed).**  At the call the machine stack holds `depth + stack_args` slots,
+    and after `add $8*stack_args, %rsp` it is back at `depth`: what the first pass pushed plus the padding is what
+    `push_args` returned, what the second pass pushed is what the pop phase popped. -/
+theorem C06_cleanup (depth : Nat) (s : Sig) (hs : sizesOk s = true) :
+    depthAtCall depth s = (depth : Int) + stackArgs depth s ∧ depthAfterCall depth s = depth := by
+  simp only [sizesOk, Bool.and_eq_true] at hs
+  have h1 := depthAtCall_eq depth s hs.1
+  exact ⟨h1, by simp only [depthAfterCall, h1]; omega⟩
+
+/-! ## callee-saved registers -/
 
 def hasSub (s : List Char) (p : List Char) : Bool :=
   match s with
   | [] => p.isEmpty
   | c :: cs => p.isPrefixOf (c :: cs) || hasSub cs p
 
-def calleeSavedSpellings : List (List Char) :=
-  ["%rbx", "%ebx", "%bx", "%bl", "%bh", "%r12", "%r13", "%r14", "%r15"].map String.toList
+/-- every spelling of rbx, r12, r13, r14, r15 (`%r12` is a prefix of `%r12d`, `%r12w`, `%r12b`) and the narrow spellings of rbp -/
+def forbiddenSpellings : List (List Char) :=
+  ["%rbx", "%ebx", "%bx", "%bl", "%bh", "%r12", "%r13", "%r14", "%r15", "%ebp", "%bp"].map String.toList
 
-def mentionsCalleeSaved (t : String × List String) : Bool :=
-  t.2.any (fun o => calleeSavedSpellings.any (fun b => hasSub o.toList b))
+def mentionsForbidden (t : String × List String) : Bool :=
+  t.2.any (fun o => forbiddenSpellings.any (fun b => hasSub o.toList b))
+
+/-- the mnemonics of the back end; none has rbx, rbp or r12-r15 as an implicit operand (Intel SDM vol. 2: div/idiv/cqo/cdq
+    use rax, rdx; shifts cl; cmpxchg rax; rep stosb rdi, rcx, al; push/pop/call/ret rsp; x87 and SSE instructions none).
+    A mnemonic outside this list (cpuid, cmpxchg16b, xlat, enter, leave, pusha ...) makes the theorem fail. -/
+def knownMnemonics : List String :=
+  ["add","addq","addsd","addss","and","call","cdq","cmp","cqo","cvtsd2ss","cvtsi2sd","cvtsi2sdl","cvtsi2sdq","cvtsi2ssl",
+   "cvtsi2ssq","cvtss2sd","cvttsd2sil","cvttsd2siq","cvttss2sil","cvttss2siq","data16 lea","dec","div","divsd","divss",
+   "faddp","fadds","fchs","fcomip","fdivrp","fildl","fildll","fildq","fistpl","fistpq","fistps","fldcw","fldl","flds","fldt",
+   "fldz","fmulp","fnstcw","fstp","fstpl","fstps","fstpt","fsubrp","fucomip","idiv","imul","inc","jbe","je","jmp","jne","jns",
+   "js","lea","lock cmpxchg","mov","movd","movl","movq","movsbl","movsd","movss","movswl","movsxd","movzb","movzbl","movzwl",
+   "movzx","mulsd","mulss","neg","not","or","pop","push","pxor","rep stosb","ret","rex64","sar","seta","setae","setb","setbe",
+   "sete","setl","setle","setne","setnp","setp","shl","shr","sub","subsd","subss","test","ucomisd","ucomiss","xchg","xor",
+   "xorpd","xorps"]
+
+/-- `%rbp` as a register operand: only the prologue (`push %rbp`, `mov %rsp, %rbp`), the epilogue (`mov %rbp, %rsp`,
+    `pop %rbp`) and reads of it as a source (`movq %rbp, N(%rbp)` in the va_area set-up) -/
+def rbpUseOk (t : String × List String) : Bool :=
+  if t.2.contains "%rbp" then
+    t == ("push", ["%rbp"]) || t == ("mov", ["%rsp", "%rbp"]) || t == ("mov", ["%rbp", "%rsp"]) || t == ("pop", ["%rbp"])
+      || ((t.1 == "mov" || t.1 == "movq") && t.2.head? == some "%rbp" && t.2.getLast? != some "%rbp")
+  else true
 
 set_option maxRecDepth 100000 in
-theorem C06_callee_saved_unmentioned : templates.all (fun t => !mentionsCalleeSaved t) = true := by decide
+/-- **C06 (callee-saved registers, part 1).**  Decided over the complete list of instruction templates that codegen.c can
+    print (regenerated from the source on every run, `%s` arguments resolved to every string they can be): no template
+    mentions rbx, r12, r13, r14 or r15 in any width; every mnemonic is a known one without such an implicit operand; rbp is
+    written only by `mov %rsp, %rbp` and `pop %rbp`.  (`asm` statements are user text and excluded.) -/
+theorem C06_callee_saved :
+    templates.all (fun t => !(mentionsForbidden t) && knownMnemonics.contains t.1 && rbpUseOk t) = true ∧
+    ChibiVerif.Gen.Templates.userAsmSites = 1 := by decide
+
+/-- a function's frame registers: rsp, rbp, and the word the prologue saved at `entry - 8` -/
+structure Frame where
+  rsp : Int
+  rbp : Int
+  saved : Int
+
+/-- `push %rbp; mov %rsp, %rbp; sub $stack_size, %rsp` -/
+def prologue (entry callerRbp : Int) (stackSize : Nat) : Frame :=
+  { rsp := entry - 8 - stackSize, rbp := entry - 8, saved := callerRbp }
+
+/-- `mov %rbp, %rsp; pop %rbp; ret`: (rsp, rbp) afterwards.  `pop` reads the word at the new rsp, which is the saved one
+    exactly when rbp still points at it. -/
+def epilogue (f : Frame) (entry : Int) : Option (Int × Int) :=
+  if f.rbp = entry - 8 then some (f.rbp + 8 + 8, f.saved) else none
+
+/-- **C06 (callee-saved registers, part 2).**  Every path to `.L.return.f` runs `mov %rbp, %rsp; pop %rbp; ret`.  Since no
+    template of the body writes rbp (part 1), whatever the body did to rsp, the caller gets back rsp = entry + 8 (the
+    return address popped) and its own rbp — provided the body did not overwrite the saved word (memory safety of the
+    compiled program, not a property of the calling convention). -/
+theorem C06_epilogue_restores (entry callerRbp : Int) (stackSize : Nat) (bodyRsp : Int) :
+    epilogue { prologue entry callerRbp stackSize with rsp := bodyRsp } entry = some (entry + 8, callerRbp) := by
+  simp only [epilogue, prologue]
+  simp
 
 end ChibiVerif.Props.C06
